@@ -1375,6 +1375,7 @@ class TaskScenario(ScenarioData):
         # (they work together as a team - can't progress if any member is unavailable)
         if effort > 0 and len(resources_to_book) > 1:
             all_available = True
+            counted: list[Any] = []
             for resource in resources_to_book:
                 res_scenario = resource.data[self.scenarioIdx] if resource.data else None
                 if res_scenario is None:
@@ -1386,10 +1387,21 @@ class TaskScenario(ScenarioData):
                 if not res_scenario.available(slot_idx):
                     all_available = False
                     break
-                # Also check task limits
+                # Also check task limits. Both the resource-side limits (inside available())
+                # and the task limits are checked against what is left after the members
+                # checked so far: every member's booking counts, and a team must not start a
+                # slot that only some of its members could book
                 if not self.limitsOk(slot_idx, resource):
                     all_available = False
                     break
+                self.incLimits(slot_idx, resource)
+                res_scenario.countLimits(slot_idx, 1)
+                counted.append(resource)
+            # The real increments happen when the members are booked below
+            for resource in counted:
+                slot_idx = self.currentSlotIdx if self.currentSlotIdx is not None else 0
+                self.decLimits(slot_idx, resource)
+                resource.data[self.scenarioIdx].countLimits(slot_idx, -1)
 
             if not all_available:
                 # Can't book - one or more resources unavailable
@@ -1491,6 +1503,17 @@ class TaskScenario(ScenarioData):
         """
         for limits in self.getAllLimits():
             limits.inc(sbIdx, resource=resource.id if resource else None)
+
+    def decLimits(self, sbIdx: int, resource: Optional[Any] = None) -> None:
+        """
+        Decrement all task limit counters (including parent limits); undoes incLimits.
+
+        Args:
+            sbIdx: Scoreboard index
+            resource: Resource the tentative booking was counted for
+        """
+        for limits in self.getAllLimits():
+            limits.dec(sbIdx, resource=resource.id if resource else None)
 
     def bookResource(self, resource: Any) -> float:
         """
